@@ -776,8 +776,9 @@ def _roundtrip(ctx, rng, h, bname, plain, rewrite_tags):
             diffs = _diff_maps(want, sm.prune_empty_dirs(model))
             fatal = sorted({n[0] for n in notes if n[0] in ("delete-of-path-reoccupied-in-same-commit", "rename-of-missing-path",
                                                            "copy-of-missing-path", "unknown-file-command")})
-            if not fatal and any(n[0] == "delete-by-old-path-after-rename" for n in notes):
-                fatal = ["delete-by-old-path-after-rename"]  # harmless for git; only names the exporter if this commit goes wrong
+            soft = [n[0] for n in notes if n[0] in ("delete-by-old-path-after-rename", "rename-replaces-path-occupied-in-same-commit")]
+            if not fatal and soft:
+                fatal = soft[:1]  # harmless for the final tree by git's rules; only names the exporter if this commit goes wrong
             if diffs:
                 sym, p = diffs[0]
                 cls = _cls_of(d, p)
@@ -804,7 +805,7 @@ def _roundtrip(ctx, rng, h, bname, plain, rewrite_tags):
                 missing = [n[1] for n in notes if n[0] == fatal[0]]
                 if fatal[0] == "delete-of-path-reoccupied-in-same-commit":
                     key = "path-deleted-after-being-reoccupied"
-                elif fatal[0] == "delete-by-old-path-after-rename":
+                elif fatal[0] in ("delete-by-old-path-after-rename", "rename-replaces-path-occupied-in-same-commit"):
                     key = "change-below-renamed-directory:old-path-used-after-the-rename"
                 elif fatal[0] == "rename-of-missing-path" and missing[0] in base:
                     # the source existed in the parent tree: an earlier command of the same commit destroyed or moved it
@@ -812,7 +813,7 @@ def _roundtrip(ctx, rng, h, bname, plain, rewrite_tags):
                 else:
                     key = fatal[0]  # (fixed) a rename of a path that never existed
                 # a command git merely ignores is only a last-resort explanation (e_soft): used when nothing else explains the commit
-                (e_soft if fatal[0] == "delete-by-old-path-after-rename" else e_problem)[mark] = (
+                (e_soft if fatal[0] in ("delete-by-old-path-after-rename", "rename-replaces-path-occupied-in-same-commit") else e_problem)[mark] = (
                     "export:stream:%s" % key,
                     "commit %s (%s): %s %r (revision did: %s)" % (mark.decode(), r.decode(), fatal[0], missing[:4], d.classes[:8]),
                     {"revision": r.decode(), "mark": mark.decode(), "commands": cmds_by_mark[mark], "delta": d.classes[:30]})
